@@ -14,6 +14,7 @@ class OpsMixin:
     # ------------------------------------------------------------ numeric helpers
     def num(self, v):
         """z3 Real term"""
+        v = self.force(v)
         if isinstance(v, VReal):
             return v.t
         if isinstance(v, VInt):
@@ -31,6 +32,12 @@ class OpsMixin:
 
     def truthy(self, v):
         """z3 Bool"""
+        if isinstance(v, VOpt):
+            if v.forced is not None:
+                return self.truthy(v.forced)
+            if v.ty[0] in ("obj", "callback", "lock", "datetime", "enum"):
+                return z3.Not(v.isnone)          # these are always truthy when present: no need to materialise
+            return z3.And(z3.Not(v.isnone), self.truthy(v.get()))
         if isinstance(v, VBool):
             return v.t
         if isinstance(v, VInt):
@@ -138,14 +145,21 @@ class OpsMixin:
         if self.pure:
             t = E.simp(self.truthy(c))
             if not (E.is_true(t) or E.is_false(t)):
-                a = self.eval(node.body, frame)
-                b = self.eval(node.orelse, frame)
+                a = self.under(t, lambda: self.eval(node.body, frame))
+                b = self.under(z3.Not(t), lambda: self.eval(node.orelse, frame))
+                if a is None:
+                    return b if b is not None else NONE
+                if b is None:
+                    return a
                 return self.ite(t, a, b)
         if self.test(c, ast.unparse(node.test)):
             return self.eval(node.body, frame)
         return self.eval(node.orelse, frame)
 
     def ite(self, c, a, b):
+        if a is b:
+            return a
+        a, b = self.force(a), self.force(b)
         if isinstance(a, VInt) and isinstance(b, VInt):
             return VInt(z3.If(c, a.t, b.t))
         if isinstance(a, (VInt, VReal)) and isinstance(b, (VInt, VReal)):
@@ -262,6 +276,7 @@ class OpsMixin:
         v = self.eval(node.operand, frame)
         if isinstance(node.op, ast.Not):
             return VBool(E.simp(z3.Not(self.truthy(v))))
+        v = self.force(v)
         if isinstance(node.op, ast.USub):
             if isinstance(v, VInt):
                 return VInt(-v.t)
@@ -280,6 +295,7 @@ class OpsMixin:
 
     def binop(self, op, a, b):
         run = self.run
+        a, b = self.force(a), self.force(b)
         if isinstance(a, VBool) and isinstance(b, (VInt, VReal, VBool)) or isinstance(b, VBool) and isinstance(a, (VInt, VReal)):
             if isinstance(a, VBool):
                 a = VInt(self.intt(a))
@@ -442,6 +458,10 @@ class OpsMixin:
         return VBool(E.simp(z3.And(terms)))
 
     def compare(self, op, a, b):
+        if not isinstance(op, (ast.Is, ast.IsNot, ast.Eq, ast.NotEq)):
+            a, b = self.force(a), self.force(b)
+        elif isinstance(op, (ast.In, ast.NotIn)):
+            a, b = self.force(a), self.force(b)
         if isinstance(op, ast.Eq):
             return self.eq(a, b)
         if isinstance(op, ast.NotEq):
@@ -507,6 +527,10 @@ class OpsMixin:
         raise E.Unsupported("subset")
 
     def identical(self, a, b):
+        for x, y in ((a, b), (b, a)):
+            if isinstance(x, VOpt) and x.forced is None and isinstance(y, VNone):
+                return x.isnone
+        a, b = self.force(a), self.force(b)
         if isinstance(a, VNone) or isinstance(b, VNone):
             return z3.BoolVal(isinstance(a, VNone) and isinstance(b, VNone))
         if isinstance(a, VRef) and isinstance(b, VRef):
@@ -526,6 +550,7 @@ class OpsMixin:
         return self.eq(a, b)
 
     def contains(self, cont, x):
+        cont = self.force(cont)
         if isinstance(cont, VTuple):
             return z3.Or([self.eq(x, y) for y in cont.items] or [z3.BoolVal(False)])
         if isinstance(cont, VStr):
@@ -557,7 +582,7 @@ class OpsMixin:
 
     # ------------------------------------------------------------ subscripts / slices
     def e_Subscript(self, node, frame):
-        v = self.eval(node.value, frame)
+        v = self.force(self.eval(node.value, frame))
         if isinstance(node.slice, ast.Slice):
             if node.slice.step is not None:
                 raise E.Unsupported("slice step")
@@ -568,6 +593,7 @@ class OpsMixin:
 
     # ------------------------------------------------------------ strings
     def to_str(self, v):
+        v = self.force(v)
         if isinstance(v, VStr):
             return v
         if isinstance(v, VInt):
@@ -620,6 +646,7 @@ class OpsMixin:
 
     def iterate_concrete(self, v):
         """python list of SVs for a concretely-shaped iterable, else Unsupported"""
+        v = self.force(v)
         if isinstance(v, VTuple):
             return list(v.items)
         if isinstance(v, VRef):
@@ -644,7 +671,7 @@ class OpsMixin:
             body(frame)
             return
         g = gens[0]
-        it = self.eval(g.iter, frame)
+        it = self.force(self.eval(g.iter, frame))
         for x in self.iterate_concrete(it):
             f2 = E.Frame(frame.relpath, frame.ci, {}, frame, frame.fname)
             self.assign_target(g.target, x, f2)
@@ -704,7 +731,7 @@ class OpsMixin:
             return None
         g = node.generators[0]
         try:
-            it = self.eval(g.iter, frame)
+            it = self.force(self.eval(g.iter, frame))
         except E.Unsupported:
             return None
         if isinstance(it, VRef) and it.kind in ("list", "set", "dict") and not self.run.rec(it.oid).concrete:
